@@ -35,7 +35,8 @@ MANIFEST = {
             "replaced by its instantiated body (arity checked, body labels renamed to names drawn for this expansion, all parameters "
             "substituted simultaneously wherever they occur — compound operands, %push, arguments of nested invocations and of "
             "expression macro calls — with the arguments not re-examined), the suffix counter advanced; same items, hence same bytes or "
-            "same failure. FAILURE HALF: an invocation that cannot be expanded fails with exactly the matching error (C10_rejects); if the program with the invocation "
+            "same failure. FOR THE ASSEMBLER MODEL ITSELF (C10_assemble_expansion / _conv / _rejects): assemble on pre; %name(args); post yields exactly what it yields on "
+            "pre; body'; post — same bytes or same error — up to the recursion limit; an unexpandable invocation fails with the matching error when the statements before it are fed without error. FAILURE HALF (specification's flatten phase): an invocation that cannot be expanded fails with exactly the matching error (C10_rejects); if the program with the invocation "
             "fails with e (other than the recursion limit) the expanded program fails with e (C10_expansion_error); whatever the expanded program yields the invocation yields, "
             "or stops at the 255-level limit (C10_expansion_conv). flattenAll iterates this; definitions are collected before flattening. T-asm (C13) ties flatten to "
             "Assembler::push / expand_macro. TEXT (C10_text): for the WHOLE surface language — %macro definitions with bodies, invocations, "
